@@ -59,6 +59,13 @@ def array_method_cases():
         out.append((f'{fmt_item(r)}.length()', len(r)))
         out.append((f'{fmt_item(r)}.get(0)', r[0]))
         out.append((f'{fmt_item(r)}[-1]', r[-1]))
+        # every index from -length to length - 1, through [] and through get() with and without a fallback; just outside: the fallback
+        for i in range(-len(r), len(r)):
+            out.append((f'{fmt_item(r)}.get({i})', r[i]))
+            out.append((f"{fmt_item(r)}.get({i}, 'fb')", r[i]))
+            out.append((f'{fmt_item(r)}[{i}]', r[i]))
+        out.append((f"{fmt_item(r)}.get({len(r)}, 'fb')", 'fb'))
+        out.append((f"{fmt_item(r)}.get({-len(r) - 1}, 'fb')", 'fb'))
     return out
 
 
